@@ -204,7 +204,17 @@ def reassigned(fn, key='version', every=4):
         if isinstance(case, dict) and key in case:
             _calls[0] += 1
             if _calls[0] % every == 0:
-                pv = ERAS[(_calls[0] // every) % len(ERAS)]
+                k_ = _calls[0] // every
+                pv = ERAS[k_ % len(ERAS)]
+                if k_ % 2:
+                    # every other time: the nearest era AFTER the case's
+                    # version (an ascending sweep never visits a later
+                    # version first - a process serving mixed clients does)
+                    later = [e for e in ERAS if isinstance(case[key], int)
+                             and e in _RANK and case[key] in _RANK and
+                             _RANK[e] > _RANK[case[key]]]
+                    if later:
+                        pv = later[(k_ // 2) % min(2, len(later))]
                 if pv != case[key]:
                     ctx.label('reassigned_context_cases')
                     private(ctx, dict(case, prev_version=pv))
@@ -734,6 +744,11 @@ def t_overlap(ctx, step):
                         '(736/751): suspension points x 4 read/write pairs')
 
 
+def prepare(tier):
+    from props import c05_roundtrip as P5
+    P5.canonical_layouts()
+
+
 def t_carriers(ctx, lo, hi):
     from props import c05_roundtrip as P5
     kp = known_protocols()
@@ -747,7 +762,12 @@ def t_carriers(ctx, lo, hi):
             fl = P5.fields_of(cls, v)
         except Exception:
             continue
-        if not any(P5.T2.spec_name(sp) == 'Position' for _n, _t, sp in fl):
+        kinds = {'Position', 'ChunkSectionPos', 'MBRecord'}
+
+        def has(sp):
+            n_ = P5.T2.spec_name(sp)
+            return n_ in kinds or (n_ == 'PrefixedArray' and has(sp[2]))
+        if not any(has(sp) for _n, _t, sp in fl):
             continue
         for r, xyz in enumerate(triples):
             vals = {}
